@@ -84,10 +84,12 @@ CLAIMED.update({
     "C17": ("§4 C17", "decides four clauses: CREP.rank, KEY.no-positional between impacts / η names / conditionals, CHECK.three-way and the "
                       "objectives at the constructor, C.relations and C.empty-minimum of the solved system, RANK.min / ACCEPT.decision, and the shape of "
                       "the front enumeration (solver scope, objectives, CHECK.three-way, MODEL.extract on solve_pareto_front), FRONT.wiring of "
-                      "c_inference_pareto_front, FACTORY.forward, KEY.no-reserved of the query names. Not decided: "
-                      "Pareto minimality, termination of the front enumeration, relation to c-inference",
-            "abstract interpretation + provenance qualifiers of indices"),
-    "C18": ("§4 C18", "decides: RANK.min, ACCEPT.decision, MARG.bits, COND.filter, TPO.order (both directions, tpo2ranks by evaluation on a symbolic list of layers), WORLD.literals, FACTORY.forward. Assumes: solver, BitVector",
+                      "c_inference_pareto_front, FACTORY.forward, KEY.no-reserved of the query names; FRONT.enumeration: the enumeration loop run "
+                      "iteration by iteration (bounded) against a stated model of z3's Pareto mode returns for every behaviour of the optimiser - with a single "
+                      "objective z3 repeats the optimum and never answers unsat - and returns exactly the reported points. Not decided: "
+                      "Pareto minimality of what z3 reports, relation to c-inference",
+            "abstract interpretation + provenance qualifiers of indices + bounded unrolling against an external model of the optimiser"),
+    "C18": ("§4 C18", "decides: RANK.min, ACCEPT.decision, MARG.bits, COND.filter, TPO.order (all three by evaluation on concrete worlds with symbolic ranks / free test outcomes / all order types of the ranks), WORLD.literals, FACTORY.forward. Assumes: solver, BitVector",
             "abstract interpretation (accumulator update tables, decision tables, key construction)"),
     "C20": ("§4 C20", "decides three clauses: SAVE.restore (all exits incl. failing open/dump), STATE.pickled (__getstate__/__setstate__ keep every attribute with its full content), IMPACTS.keys (export followed by import of what it wrote; size check before replacement), IMPACTS.factory (both init_with_impacts*), IMPACTS.accept (no legitimate vector "
                       "rejected on reload), FORMAT.agree (tables over suffix "
